@@ -13,9 +13,12 @@ def check(run):
     stats = {'programs_clean': 0, 'programs_with_failing_calls': 0, 'discrepancies_explained_by_known_findings': {}, 'calls': 0, 'deliveries': 0}
     known_seen = {}
     new = None
-    for dirty, focus, count in ((False, None, n), (True, None, n), (False, 'push-iws', n // 2)):
-        for i in range(count):
-            seed = run.seed * 1000003 + i
+    # corpus: programs that once failed (thorough tier), kept and run first
+    CORPUS = [1035737,      # HEADER_TABLE_SIZE 0, then 4096 twice: hpack forgot the pending size announcement (fix a61fac8)
+              1036084]      # three HEADER_TABLE_SIZE changes in flight (F-C01-3)
+    for dirty, focus, count in ((False, None, -1), (False, None, n), (True, None, n), (False, 'push-iws', n // 2)):
+        for i in (range(count) if count >= 0 else range(len(CORPUS))):
+            seed = run.seed * 1000003 + i if count >= 0 else CORPUS[i]
             res, script = twoend.run_program(seed, dirty=dirty, focus=focus)
             stats['programs_with_failing_calls' if dirty else 'programs_clean'] += 1
             stats['calls'] += sum(1 for s in script if not s.startswith('deliver'))
